@@ -406,6 +406,7 @@ void h_access(void) { BIG_VIEW(h, p, n); VF_INPUT(unsigned long, i);
   VF_ASSERT(sv_max_size(&h) == NPOS && sv_npos() == NPOS, "max_size() and npos are size_type(-1)");
   VF_ASSERT(sv_begin(&h) == p && sv_cbegin(&h) == p && sv_end(&h) == p + n && sv_cend(&h) == p + n, "begin/cbegin == data(), end/cend == data() + size()");
   VF_ASSERT(sv_rbegin_base(&h) == p + n && sv_rend_base(&h) == p, "rbegin().base() == end(), rend().base() == begin()");
+  VF_ASSERT(sv_crbegin_base(&h) == p + n && sv_crend_base(&h) == p, "crbegin().base() == end(), crend().base() == begin()");
   if (n > 0) { VF_ASSERT(sv_front(&h) == p && sv_back(&h) == p + (n - 1), "front/back address the first/last character"); }
   if (i < n) { VF_ASSERT(sv_index(&h, i) == p + i, "operator[](i) addresses character i for every i < size()"); }
   VF_ASSERT(h._begin == p && h._size == n, "observers do not change the view"); VF_REACH(); }
